@@ -46,8 +46,15 @@ type c16change struct {
 	preBefore, preAfter        string
 	bodyBefore, bodyAfter      string
 	defBefore, defAfter        string // parameter list of a helper H%d defined in the prelude ("" = no helper)
-	factoryBefore, factoryAfter string // value captured by the target (free variable) ("" = plain target)
+	factoryBefore, factoryAfter string // argument v of the factory whose locals v and w = (v, "!") the target can capture ("" = plain target)
+	paramsBefore, paramsAfter   string // parameter list of the target itself
 }
+
+// kinds that change the tables of the whole module (names, universals, predeclared): the operands of every function's
+// bytecode move with them, so "code" differs for every sibling.  The second project leaves them out, so that there a
+// part that differs is the ONLY part that differs.
+var c16moduleWide = map[string]bool{"universal": true, "constant-and-universal": true, "predeclared-attribute": true,
+	"global-to-universal-name": true, "predeclared-module": true, "predeclared-module-dropped": true}
 
 var c16changes = []c16change{
 	{name: "nothing", bodyBefore: `print("same %d")`, bodyAfter: `print("same %d")`},
@@ -65,6 +72,26 @@ var c16changes = []c16change{
 	{name: "free-variable", factoryBefore: `"old"`, factoryAfter: `"new"`, bodyBefore: `print(v)`, bodyAfter: `print(v)`},
 	{name: "global-to-universal-name", preBefore: "G%d = 1\n", preAfter: "G%d = 1\n", bodyBefore: `print(G%d)`, bodyAfter: `print(len)`},
 	{name: "statement-order", bodyBefore: "x = 1\n    y = 2\n    print(x, y)", bodyAfter: "y = 2\n    x = 1\n    print(x, y)"},
+	// every part of the environment that the unpickler builds, as far as possible as the ONLY part that differs, ...
+	{name: "default-parameter", paramsBefore: `self, mode="old"`, paramsAfter: `self, mode="new"`, bodyBefore: `print(mode)`, bodyAfter: `print(mode)`},
+	{name: "default-parameter-added", paramsBefore: `self, a=1`, paramsAfter: `self, a=1, b=2`, bodyBefore: `print(a)`, bodyAfter: `print(a)`},
+	{name: "default-parameter-of-closure", factoryBefore: `"same"`, factoryAfter: `"same"`, paramsBefore: `self, a=(1, 2)`, paramsAfter: `self, a=(1, 3)`, bodyBefore: `print(a, v)`, bodyAfter: `print(a, v)`},
+	{name: "free-variable-local", factoryBefore: `"old"`, factoryAfter: `"new"`, bodyBefore: `print(w)`, bodyAfter: `print(w)`},
+	{name: "free-variable-and-constant", factoryBefore: `"old"`, factoryAfter: `"new"`, bodyBefore: `print(v, "a %d")`, bodyAfter: `print(v, "b %d")`},
+	{name: "free-variable-one-more-captured", factoryBefore: `"same"`, factoryAfter: `"same"`, bodyBefore: `print(v)`, bodyAfter: `print(v, w)`},
+	{name: "free-variable-and-default", factoryBefore: `1`, factoryAfter: `2`, paramsBefore: `self, a=1`, paramsAfter: `self, a=2`, bodyBefore: `print(a, v)`, bodyAfter: `print(a, v)`},
+	{name: "predeclared-module", bodyBefore: `print(len)`, bodyAfter: `print(os)`},
+	{name: "predeclared-module-dropped", bodyBefore: `print(os, len)`, bodyAfter: `print(len, len)`},
+	// ... and values that read as "nothing" (None is what a look-up of a missing key hands back) inside those parts
+	{name: "global-none-to-value", preBefore: "G%d = None\n", preAfter: "G%d = \"x\"\n", bodyBefore: `print(G%d)`, bodyAfter: `print(G%d)`},
+	{name: "global-value-to-none", preBefore: "G%d = \"x\"\n", preAfter: "G%d = None\n", bodyBefore: `print(G%d)`, bodyAfter: `print(G%d)`},
+	{name: "global-none-kept", preBefore: "G%d = None\nK%d = 1\n", preAfter: "G%d = None\nK%d = 2\n", bodyBefore: `print(G%d, K%d)`, bodyAfter: `print(G%d, K%d)`},
+	{name: "global-none-newly-used", preBefore: "G%d = None\nK%d = 1\n", preAfter: "G%d = None\nK%d = 1\n", bodyBefore: `print(K%d, K%d)`, bodyAfter: `print(K%d, G%d)`},
+	{name: "global-dict-with-none", preBefore: "G%d = {\"a\": None, \"b\": 1, \"c\": 0}\n", preAfter: "G%d = {\"a\": None, \"b\": None, \"c\": 1}\n", bodyBefore: `print(G%d)`, bodyAfter: `print(G%d)`},
+	{name: "free-variable-none-to-value", factoryBefore: `None`, factoryAfter: `"x"`, bodyBefore: `print(v)`, bodyAfter: `print(v)`},
+	{name: "free-variable-value-to-none", factoryBefore: `0`, factoryAfter: `None`, bodyBefore: `print(v, w)`, bodyAfter: `print(v, w)`},
+	{name: "default-parameter-none-to-value", paramsBefore: `self, a=None, b=1`, paramsAfter: `self, a=1, b=1`, bodyBefore: `print(a, b)`, bodyAfter: `print(a, b)`},
+	{name: "default-parameter-none-kept", paramsBefore: `self, a=None, b=1`, paramsAfter: `self, a=None, b=2`, bodyBefore: `print(a, b)`, bodyAfter: `print(a, b)`},
 }
 
 func c16sub(s string, i int) string {
@@ -91,10 +118,11 @@ func c16buildFile(kinds []int, after bool) string {
 			fmt.Fprintf(&b, "def H%d(%s):\n    return a\n", i, pick(c.defBefore, c.defAfter))
 		}
 		body := c16sub(pick(c.bodyBefore, c.bodyAfter), i)
+		params := pick(c.paramsBefore, c.paramsAfter)
 		if c.factoryBefore != "" {
-			fmt.Fprintf(&b, "def mk%d(v):\n    @target(name=\"t%d\")\n    def t():\n        %s\n    return t\n\nmk%d(%s)\n\n", i, i, body, i, pick(c.factoryBefore, c.factoryAfter))
+			fmt.Fprintf(&b, "def mk%d(v):\n    w = (v, \"!\")\n    @target(name=\"t%d\")\n    def t(%s):\n        %s\n    return t\n\nmk%d(%s)\n\n", i, i, params, body, i, pick(c.factoryBefore, c.factoryAfter))
 		} else {
-			fmt.Fprintf(&b, "@target()\ndef t%d():\n    %s\n\n", i, body)
+			fmt.Fprintf(&b, "@target()\ndef t%d(%s):\n    %s\n\n", i, params, body)
 		}
 		deps = append(deps, fmt.Sprintf("%q", ":t"+strconv.Itoa(i)))
 	}
@@ -112,7 +140,7 @@ type c16events struct {
 func (e *c16events) TargetEvaluating(l *label.Label, reason string, d diff.ValueDiff) {
 	e.m.Lock()
 	defer e.m.Unlock()
-	e.reasons[l.String()] = c16obs{reason: reason, diffKeys: c16diffKeys(d), st: "ok", diffText: c16diffText(d)}
+	e.reasons[l.String()] = c16obs{reason: reason, diffKeys: c16diffKeysAll(d), st: "ok", diffText: c16diffText(d)}
 	e.seen[l.String()]++
 }
 
@@ -129,7 +157,21 @@ func (e *c16events) reset() {
 	e.reasons, e.seen = map[string]c16obs{}, map[string]int{}
 }
 
-// c16envDiffers computes, without diffEnv or the diff package, the listed keys at which two environments differ.
+// c16envKeys lists the keys of an environment in insertion order (strings as they are, anything else rendered).
+func c16envKeys(d *starlark.Dict) []string {
+	var ks []string
+	for _, k := range d.Keys() {
+		if s, ok := k.(starlark.String); ok {
+			ks = append(ks, string(s))
+		} else {
+			ks = append(ks, k.String())
+		}
+	}
+	return ks
+}
+
+// c16envDiffers computes, without diffEnv or the diff package, the parts at which two environments differ: EVERY key
+// of either environment (not just the keys diffEnv has a name for) that is bound in one only or bound to unequal values.
 func c16envDiffers(o, n starlark.Value) (map[string]bool, bool) {
 	od, ok1 := o.(*starlark.Dict)
 	nd, ok2 := n.(*starlark.Dict)
@@ -137,23 +179,145 @@ func c16envDiffers(o, n starlark.Value) (map[string]bool, bool) {
 		return nil, false
 	}
 	res := map[string]bool{}
-	for _, k := range functionEnvKeys {
-		ov, ofound, _ := od.Get(k)
-		nv, nfound, _ := nd.Get(k)
-		switch {
-		case ofound != nfound:
-			res[string(k)] = true
-		case ofound:
-			eq, err := starlark.Equal(ov, nv)
-			if err != nil {
-				return nil, false
+	done := map[string]bool{}
+	for _, d := range []*starlark.Dict{od, nd} {
+		for _, k := range d.Keys() {
+			name := k.String()
+			if s, ok := k.(starlark.String); ok {
+				name = string(s)
 			}
-			if !eq {
-				res[string(k)] = true
+			if done[name] {
+				continue
+			}
+			done[name] = true
+			ov, ofound, _ := od.Get(k)
+			nv, nfound, _ := nd.Get(k)
+			switch {
+			case ofound != nfound:
+				res[name] = true
+			case ofound:
+				eq, err := starlark.Equal(ov, nv)
+				if err != nil {
+					return nil, false
+				}
+				if !eq {
+					res[name] = true
+				}
 			}
 		}
 	}
 	return res, true
+}
+
+// c16shownDiffFaithful walks the diff handed out with the reason (what `--diff` prints for the target) next to the two
+// values it is a diff of, and checks the mapping clause on every mapping diff in it -- the one of the environment
+// itself and those nested in it (global values, default parameter values, free variables, dicts bound to globals,
+// function values): an edit for exactly the keys removed / added / changed, of that kind, carrying that value, with
+// "bound" decided by the look-up's found flag, never by the value.  Returns descriptions of what is wrong.
+func c16shownDiffFaithful(d diff.ValueDiff, o, n starlark.Value, path string, depth int) (fails []string) {
+	defer func() {
+		if x := recover(); x != nil {
+			fails = append(fails, fmt.Sprintf("%s: walking the diff panics: %v", path, x))
+		}
+	}()
+	if d == nil || depth > 40 {
+		return nil
+	}
+	same := func(x, y starlark.Value) bool {
+		eq, err := starlark.Equal(x, y)
+		return err != nil || eq
+	}
+	if !same(d.Old(), o) || c16type(d.Old()) != c16type(o) {
+		fails = append(fails, fmt.Sprintf("%s: old side of the diff is %.80s, the old value is %.80s", path, d.Old().String(), o.String()))
+	}
+	if !same(d.New(), n) || c16type(d.New()) != c16type(n) {
+		fails = append(fails, fmt.Sprintf("%s: new side of the diff is %.80s, the new value is %.80s", path, d.New().String(), n.String()))
+	}
+	switch d := d.(type) {
+	case *diff.MappingDiff:
+		om, ok1 := o.(starlark.IterableMapping)
+		nm, ok2 := n.(starlark.IterableMapping)
+		if !ok1 || !ok2 {
+			return append(fails, path+": mapping diff of values that are not both mappings")
+		}
+		want, seen := 0, map[string]bool{}
+		for _, m := range []starlark.IterableMapping{om, nm} {
+			it := m.Iterate()
+			var k starlark.Value
+			for it.Next(&k) {
+				if seen[k.String()] {
+					continue
+				}
+				seen[k.String()] = true
+				ov, inO, _ := om.Get(k)
+				nv, inN, _ := nm.Get(k)
+				ev, has, _ := d.Edits().Get(k)
+				var e *diff.Edit
+				if has {
+					e, _ = ev.(*diff.Edit)
+				}
+				at := path + "[" + k.String() + "]"
+				switch {
+				case inO && !inN:
+					want++
+					if e == nil || e.Kind() != diff.EditKindDelete || e.Len() != 1 || !same(e.Index(0), ov) {
+						fails = append(fails, fmt.Sprintf("%s: key removed (was %.60s): edit %v", at, ov.String(), c16editText(ev)))
+					}
+				case !inO && inN:
+					want++
+					if e == nil || e.Kind() != diff.EditKindAdd || e.Len() != 1 || !same(e.Index(0), nv) {
+						fails = append(fails, fmt.Sprintf("%s: key added (now %.60s): edit %v", at, nv.String(), c16editText(ev)))
+					}
+				case same(ov, nv):
+					if has {
+						fails = append(fails, fmt.Sprintf("%s: key bound to %.60s in both, unchanged: edit %v", at, ov.String(), c16editText(ev)))
+					}
+				default:
+					want++
+					if e == nil || e.Kind() != diff.EditKindReplace || e.Len() != 1 {
+						fails = append(fails, fmt.Sprintf("%s: key bound in both, changed from %.60s to %.60s: edit %v", at, ov.String(), nv.String(), c16editText(ev)))
+						continue
+					}
+					inner, ok := e.Index(0).(diff.ValueDiff)
+					if !ok {
+						fails = append(fails, fmt.Sprintf("%s: replace edit without a diff: %v", at, c16editText(ev)))
+						continue
+					}
+					fails = append(fails, c16shownDiffFaithful(inner, ov, nv, at, depth+1)...)
+				}
+			}
+			it.Done()
+		}
+		if got := d.Edits().(interface{ Len() int }).Len(); got != want {
+			fails = append(fails, fmt.Sprintf("%s: %d edits, %d keys removed, added or changed", path, got, want))
+		}
+	case *diff.SliceableDiff:
+		for _, ev := range d.Edits() {
+			e, ok := ev.(*diff.Edit)
+			if !ok || e.Kind() != diff.EditKindReplace {
+				continue
+			}
+			for i := 0; i < e.Len(); i++ {
+				if inner, ok := e.Index(i).(diff.ValueDiff); ok {
+					fails = append(fails, c16shownDiffFaithful(inner, inner.Old(), inner.New(), path+"(..)", depth+1)...)
+				}
+			}
+		}
+	}
+	return fails
+}
+
+func c16type(v starlark.Value) string { return v.Type() }
+
+func c16editText(ev starlark.Value) string {
+	if ev == nil {
+		return "none"
+	}
+	s := ev.String()
+	if len(s) > 120 {
+		s = s[:120] + "..."
+	}
+	return s
 }
 
 func c16upToDate(f *function) (r c16obs) {
@@ -163,7 +327,7 @@ func c16upToDate(f *function) (r c16obs) {
 		}
 	}()
 	up, reason, d, err := f.upToDate()
-	r = c16obs{up: up, reason: reason, diffKeys: c16diffKeys(d), st: "ok", diffText: c16diffText(d)}
+	r = c16obs{up: up, reason: reason, diffKeys: c16diffKeysAll(d), st: "ok", diffText: c16diffText(d)}
 	if err != nil {
 		r.st, r.detail = "err", err.Error()
 	}
@@ -203,12 +367,20 @@ func TestVerifC16Targets(t *testing.T) {
 	rng := rand.New(rand.NewSource(seed*7919 + 16))
 	ncpu := runtime.NumCPU()
 	oracles := 0
+	envKeysSeen := map[string]bool{}
 
 	for p := 0; p < nproj; p++ {
-		// project p: the first project has every change kind once (in seeded order), the others a seeded choice
+		// project p: the first project has every change kind once (in seeded order), the second every kind that leaves the
+		// module's tables alone, the others a seeded choice
 		kinds := make([]int, 0, ntargets)
 		if p == 0 {
 			kinds = rng.Perm(len(c16changes))
+		} else if p == 1 {
+			for _, k := range rng.Perm(len(c16changes)) {
+				if !c16moduleWide[c16changes[k].name] {
+					kinds = append(kinds, k)
+				}
+			}
 		} else {
 			for i := 0; i < ntargets; i++ {
 				kinds = append(kinds, rng.Intn(len(c16changes)))
@@ -259,6 +431,14 @@ func TestVerifC16Targets(t *testing.T) {
 			f := rt.target.(*function)
 			alone := c16upToDate(f)
 			differing, comparable := c16envDiffers(f.oldEnv, f.newEnv)
+			for _, e := range []starlark.Value{f.oldEnv, f.newEnv} {
+				if ed, ok := e.(*starlark.Dict); ok {
+					if ks := strings.Join(c16envKeys(ed), "|"); !envKeysSeen[ks] {
+						envKeysSeen[ks] = true
+						fmt.Fprintf(w, "ENVKEYS\t%s\t%s\n", hex.EncodeToString([]byte(ks)), name+" of project "+strconv.Itoa(p))
+					}
+				}
+			}
 			fmt.Fprintf(w, "T\t%d\t%s\t%s\t%s\t%s\n", p, name, c16changes[k].name, c16wantKeys(differing), alone.reason)
 			if alone.st != "ok" {
 				oracle("up-to-date-check-"+alone.st, fmt.Sprintf("target %s (%s): %s", name, c16changes[k].name, alone.detail))
@@ -280,6 +460,15 @@ func TestVerifC16Targets(t *testing.T) {
 				if alone.diffKeys != "-" && alone.diffKeys != c16wantKeys(differing) {
 					oracle("diff-shown-with-reason-has-the-differing-keys", fmt.Sprintf("target %s (%s), checked alone: reason %q, diff has edits at [%s]; parts that differ: [%s]", name, c16changes[k].name, alone.reason, alone.diffKeys, c16wantKeys(differing)))
 					continue
+				}
+				if _, _, shown, serr := f.upToDate(); serr == nil && shown != nil {
+					if fails := c16shownDiffFaithful(shown, f.oldEnv, f.newEnv, "env", 0); len(fails) != 0 {
+						if len(fails) > 4 {
+							fails = fails[:4]
+						}
+						oracle("mapping-edits-of-the-diff-shown-for-a-target", fmt.Sprintf("target %s (%s), checked alone: reason %q; in the diff shown with it: %s", name, c16changes[k].name, alone.reason, strings.Join(fails, " ;; ")))
+						continue
+					}
 				}
 			}
 			targets = append(targets, c16target{name: name + " (" + c16changes[k].name + ")", f: f, alone: alone, differing: differing, check: c16upToDate})
